@@ -22,9 +22,18 @@ def align_scenario(sb, sc, names, via, threads=1):
             fas.append(fa)
         rc, so, se = vlib.ska_cli(["align", "--min-freq", "1", "--threads", str(threads)] + fas)
         paths = {"paths": [list(f) for f in fas], "name_chars": [list(n) for n in names]}
+    elif via == "merged":
+        # the same samples built as two multi-sample blocks and joined by `ska merge` (rows of one block carry '-' for
+        # the k-mers only the other block has)
+        paths = {}
+        h = max(1, len(samples) // 2)
+        e1 = sb.build("b1", samples[:h], names[:h], k, True, threads=threads)
+        e2 = sb.build("b2", samples[h:], names[h:], k, True, threads=threads)
+        e = sb.merge(["b1", "b2"], "x") if (e1.get("ok") and e2.get("ok")) else {"ok": False}
     else:
         paths = {}
         e = sb.build("x", samples, names, k, True, threads=threads)
+    if via != "fastas" or k != 17:
         if not e.get("ok"):
             return {"ev": "snpalign", "ep": sb.ep, "stateful": True, "ctx": ctx, "ok": False, "names": [], "seqs": [], "via": via}
         rc, so, se = vlib.ska_cli(["align", "--min-freq", "1", sb.path("x")])
@@ -95,7 +104,7 @@ def run(run, tier, seed):
             if sc is None:
                 continue
             sb.reset()
-            via = "fastas" if (k == 17 and ci % 8 == 0) else "skf"
+            via = "fastas" if (k == 17 and ci % 8 == 0) else "merged" if (ns >= 3 and ci % 4 == 1) else "skf"
             # sequence files given directly are named after the file stem; stems with dots, as assemblies often have
             nm_of = (lambda i: "iso%d.%d%s" % (ci, i, ".asm" if i % 2 else "")) if via == "fastas" else (lambda i: "a%d_%d" % (ci, i))
             ev = align_scenario(sb, sc, [nm_of(i) for i in range(ns)], via,
